@@ -19,8 +19,10 @@
  *  C07.trim_unb.moves_down    ltrim: memmove destination is the buffer start,
  *                             source is buffer+i inside the string, and the
  *                             length ends at a NUL inside the object
- *  C07.trim_unb.rtrim_store   rtrim: the terminator is stored at an index
- *                             <= the old length
+ *  C07.trim_unb.rtrim_store   rtrim: strlen is consulted exactly once; the
+ *                             terminator is stored at an index <= the length
+ *                             it returned (loop invariant i <= entry value)
+ *                             inside the object (pointer check)
  *  memory safety (pointer checks), termination (decreases)
  */
 #include <stdlib.h>
